@@ -1558,6 +1558,8 @@ def rand_amount(rng):
 
 def next_time(rng, t):
     r = rng.random()
+    if r < 0.04:
+        return t + pd.Timedelta(nanoseconds=rng.choice([1, 250, 999]))      # pandas instants carry nanoseconds
     if r < 0.05:
         return t
     if r < 0.10:
@@ -1686,6 +1688,9 @@ class Gen(object):
         if r < 0.19:
             if master <= 0:
                 return ['acct_sub', rand_amount(rng) + 1.0]
+            short = b.get_portfolio_cash_balance(pid)
+            if short < 0 and -short <= master and rng.random() < 0.5:
+                return ['p_sub', pid, float(-short)]          # exactly the shortfall: the balance comes back to 0.0
             if rng.random() < 0.1:
                 tiny = rng.choice([0.001, 0.004, 0.005, 0.009, 0.01, 0.015])
                 if tiny <= master:
@@ -2043,10 +2048,24 @@ def symmetry_pair(rng, acc, replay_of=None):
     book.set('EQ:Y', price, price + spread)     # sell Y at its bid = price
     c = rng.choice([0.001, 0.005, 0.05, 0.3, round(rng.random(), 6) + 1e-6])
     x = rng.choice([0.0, 0.005, round(rng.random(), 6)])
-    broker = SimulatedBroker(t, SimulatedExchange(t), book, initial_funds=1e9,
-                             fee_model=PercentFeeModel(commission_pct=c, tax_pct=x))
+    model = PercentFeeModel(commission_pct=c, tax_pct=x)
+    if rng.random() < 0.5:
+        # every argument by position, in the documented order (account id, base currency, funds, fee model)
+        broker = SimulatedBroker(t, SimulatedExchange(t), book, 'acct', 'USD', 1e9, model)
+    else:
+        broker = SimulatedBroker(t, SimulatedExchange(t), book, initial_funds=1e9, fee_model=model)
     broker.create_portfolio('P')
     broker.subscribe_funds_to_portfolio('P', 1e9)
+    if rng.random() < 0.35 and price > 2 * spread:
+        # the fee schedule is revised on the model object the broker was given (public attributes) after it has priced the
+        # very same trade once under the old rates
+        broker.submit_order('P', Order(t, 'EQ:X', qty))
+        broker.submit_order('P', Order(t, 'EQ:Y', -qty))
+        broker.update(t)
+        c = rng.choice([0.002, 0.01, 0.07])
+        x = rng.choice([0.0, 0.003])
+        model.commission_pct, model.tax_pct = c, x
+        acc.count('C05:pairs_after_a_rate_change_on_the_same_model_object')
     del _Instr.txns[:]
     broker.submit_order('P', Order(t, 'EQ:X', qty, order_id='buy'))
     broker.submit_order('P', Order(t, 'EQ:Y', -qty, order_id='sell'))
